@@ -189,11 +189,11 @@ type c14Msg interface {
 }
 
 type c14Kind struct {
-	name   string // Tok | Roles | Md (Coq constructor infix)
-	fresh  func() c14Msg
-	coq    func(c14Msg) string
-	ref    func(c14Msg) []byte
-	clone  func(c14Msg) c14Msg
+	name  string // Tok | Roles | Md (Coq constructor infix)
+	fresh func() c14Msg
+	coq   func(c14Msg) string
+	ref   func(c14Msg) []byte
+	clone func(c14Msg) c14Msg
 }
 
 var c14Kinds = map[string]*c14Kind{
@@ -721,11 +721,11 @@ func (r *c14Run) genRoles() *esdt.ESDTRoles {
 var c14Varints = [][]byte{
 	{0x00}, {0x01}, {0x7f}, {0x80, 0x01}, {0x80, 0x00}, {0xff, 0x7f}, {0x80},
 	{0xff, 0xff, 0xff, 0xff, 0x0f}, {0xff, 0xff, 0xff, 0xff, 0x07}, {0x80, 0x80, 0x80, 0x80, 0x10}, {0x85, 0x80, 0x80, 0x80, 0x10},
-	{0xff, 0xff, 0xff, 0xff, 0xff, 0xff, 0xff, 0xff, 0x7f},       // 2^63-1
-	{0x80, 0x80, 0x80, 0x80, 0x80, 0x80, 0x80, 0x80, 0x80, 0x01}, // 2^63
-	{0xff, 0xff, 0xff, 0xff, 0xff, 0xff, 0xff, 0xff, 0xff, 0x01}, // 2^64-1
-	{0x85, 0x80, 0x80, 0x80, 0x80, 0x80, 0x80, 0x80, 0x80, 0x02}, // 10th byte with bits beyond 64: reads as 5
-	{0x81, 0x80, 0x80, 0x80, 0x80, 0x80, 0x80, 0x80, 0x80, 0x7e}, // junk high bits, reads as 1
+	{0xff, 0xff, 0xff, 0xff, 0xff, 0xff, 0xff, 0xff, 0x7f},             // 2^63-1
+	{0x80, 0x80, 0x80, 0x80, 0x80, 0x80, 0x80, 0x80, 0x80, 0x01},       // 2^63
+	{0xff, 0xff, 0xff, 0xff, 0xff, 0xff, 0xff, 0xff, 0xff, 0x01},       // 2^64-1
+	{0x85, 0x80, 0x80, 0x80, 0x80, 0x80, 0x80, 0x80, 0x80, 0x02},       // 10th byte with bits beyond 64: reads as 5
+	{0x81, 0x80, 0x80, 0x80, 0x80, 0x80, 0x80, 0x80, 0x80, 0x7e},       // junk high bits, reads as 1
 	{0x80, 0x80, 0x80, 0x80, 0x80, 0x80, 0x80, 0x80, 0x80, 0x80, 0x00}, // 11 bytes: overflow
 	{0xff, 0xff, 0xff, 0xff, 0xff, 0xff, 0xff, 0xff, 0xff, 0xff},       // 10 bytes, continuation set
 	{0xfb, 0xff, 0xff, 0xff, 0xff, 0xff, 0xff, 0xff, 0x7f},             // 2^63-5: post index wraps negative
@@ -1132,7 +1132,10 @@ func runC14(c *ctx) {
 
 	c.sample(map[string]string{"amount_nil": hex.EncodeToString(c14RefAmount(nil)), "amount_zero": hex.EncodeToString(c14RefAmount(big.NewInt(0))),
 		"amount_minus_256": hex.EncodeToString(c14RefAmount(big.NewInt(-256)))})
-	c.sample(map[string]string{"decode": "0880808080808080808080", "result": func() string { cl, _, info := c14Decode(c14Kinds["Tok"], nil, []byte{8, 0x80, 0x80, 0x80, 0x80, 0x80, 0x80, 0x80, 0x80, 0x80, 0x80}); return cl + ": " + info }()})
+	c.sample(map[string]string{"decode": "0880808080808080808080", "result": func() string {
+		cl, _, info := c14Decode(c14Kinds["Tok"], nil, []byte{8, 0x80, 0x80, 0x80, 0x80, 0x80, 0x80, 0x80, 0x80, 0x80, 0x80})
+		return cl + ": " + info
+	}()})
 	c.rep.Rule = "amount codec: EVERY buffer of length 0..3 (16843009) plus sampled buffers of length 4..64 through the real BigIntCaster.Unmarshal with the documented acceptance rule as oracle, re-encoding and canonical-buffer monitors; boundary (nil, 0, +/-1, +/-(2^k-1), +/-2^k, 2^k+1 for k up to 4096), random and very large (up to 2^(2^23)) values through Size/MarshalTo/Unmarshal and MarshalTo into buffers of other lengths. Messages: a pinned example, fixed edge values and generated ESDigitalToken / MetaData / ESDTRoles values (nil vs empty vs non-empty for every bytes field, nil / empty / present sub-message, empty list elements, duplicate roles, nil / zero / negative / huge Value, scalar boundary values 0, 1, 127..129, 2^7k, 2^32-1, 2^64-1) through Marshal, Size, Reset+Unmarshal with monitors round trip (field-wise and generated Equal), Size()==len(Marshal()), Marshal twice / on an equal copy / after a decode-encode cycle, bytes == an independent reference encoder of the documented format. Decoding: every byte string of length 0..2 for each of the three decoders; hand-written protocol edge cases; every truncation, every single-bit flip and every varint-pattern splice of valid encodings; every (field 0..9, wire type 0..7) pair with several payloads; random mutations (truncate, flip, replace, insert/append arbitrary items incl. groups, fixed32/64, overlong tags, field numbers 0, 2^31.., 2^32+1, lengths 2^63-5 .. 2^64-1, 11-byte varints, duplicate the message) and random item sequences; Unmarshal without Reset into populated receivers. Monitors: never panics (recover), a decoded value re-encodes to a canonical form with the documented format that decodes to the same value, input not modified. Every sampled input is also evaluated by the Coq model (bytes, Size, decoded value field by field, or class error/panic). A case is non-trivial when its input is distinct."
 	c.rep.Exhaustive = false
 	c.rep.Extra = map[string]interface{}{"amount_buffers_exhaustive": exh, "amount_buffers_sampled": n4}
